@@ -4,17 +4,23 @@ import base64, io, json, os, random, signal, tempfile, time, traceback, zlib
 CLAIM = {
  'text': ('Lean 4 theorems about a branch-for-branch model of bin_file_type.py whose table of tests, magic byte strings, constants and '
           'RP66 regular-expression shapes are re-generated from the source on every run: total_and_in_range (every answer is a '
-          'documented code or the empty string, for all byte strings), first_match_wins, and one recognition lemma per supported '
-          'format (rp66_identified for every conformant storage unit label whatever follows it, las12/las20/las30_identified for the '
-          'version-line forms, bit_identified, lis/list/listr_identified for files beginning with a reel/tape/file header, '
-          'dat_identified) showing that every earlier test of the generated order fails on that format\'s prefix. The model is tied '
-          'to the code by a correspondence run on valid files of every format, all truncations <= 400 bytes, mutations, random bytes '
-          'and adversarial text. "Raises nothing / terminates promptly / leaves the file readable" are properties of the CPython '
-          'code, not of the model: they are exercised (partial), with every exception an oracle failure.'),
- 'note': ('Partial: the LIS test (physical-record scan + FileIndexer) and the DAT trial parse are abstract parameters of the model '
-          '(fed with the implementation\'s own sub-test result in the correspondence run); the ASCII gate of _dat is modelled. '
+          'documented code or the empty string, for all byte strings), first_match_wins, and recognition theorems stated against the '
+          'spec encoders of the other properties: rp66_identified_c01 (TD.C01.encode sul recs layout, every conformant label with a '
+          'printable identifier, all records and layouts), bit_identified_c13 (TD.C13.encode of any non-empty list of well-formed '
+          'passes), dat_identified (TD.C14.Spec.print f in every layout, with the DAT trial parse instantiated by the C14 model '
+          'canParseFile and proved to accept the file), lis_identified_c05 (TD.C05.encode L (header :: records) for every valid '
+          'layout and TIF mode: no earlier test claims the file; the answer of the deep _lis test is a hypothesis), plus the '
+          'prefix-level rp66_identified / bit_identified / lis_family_identified_partial / dat_text_identified and the scanner-level '
+          'las12/las20_identified_partial. The model is tied to the code by a correspondence run on valid files of every format, '
+          'all truncations <= 400 bytes, mutations, random bytes and adversarial text. "Raises nothing / terminates promptly / '
+          'leaves the file readable" are properties of the CPython code, not of the model: they are exercised (partial), with every '
+          'exception an oracle failure.'),
+ 'note': ('Partial: the LIS deep test (pad-settings scan with keepGoing=True + FileIndexer) stays an abstract parameter — the C05 '
+          'reader model covers keepGoing=False/pad 0 only — so lis_identified_c05 assumes its answer (hdeep) and proves that nothing '
+          'shadows it; LAS is proved at the level of the line scanner, not against TD.C09.print (whose number styles for VERS '
+          'produce files the code does not identify: known finding FC20d). dat_identified needs "fifth byte is not V" (FC20e). '
           'Exceptions, timing and stream position are tested, not proved. Trusted: Lean kernel; Python re/struct/codecs (cp500).'),
- 'technique': 'Lean 4 proof (case analysis over a generated signature table, list induction) + model-implementation correspondence + fuzzing oracle',
+ 'technique': 'Lean 4 proof (case analysis over a generated signature table, list induction, composition with the C01/C05/C13/C14 spec encoders) + model-implementation correspondence + fuzzing oracle',
  'design_ref': 'DESIGN.md section 6 C20',
 }
 
@@ -46,6 +52,7 @@ HEX_MAX = 65536
 # Open findings of this property: (id, exception type, file of the raising frame, function or None).  None at present:
 # FC20a/b/c (see notes/C20.md) were repaired in /repo; their inputs are in CORPUS below and any recurrence is a VIOLATION.
 FINDINGS = []
+# Open findings that are NOT exceptions are classified at their own streams (`finding_if_wrong`): FC20d, FC20e.
 
 # Permanent regression corpus, run first on every run: inputs on which binary_file_type once raised.
 _DAT_HDR = b'UTIM Unix Time sec\nDATE Date ddmmyy\nTIME Time hhmmss\nWAC Wits Activity Code unitless\nUTIM DATE TIME WAC\n'
@@ -221,7 +228,7 @@ class Batch:
         self.pending = []     # (stream, case, b, impl_out, dat, lis)
         self.seen = set()
 
-    def run_one(self, stream, b, origin, expect=None, check_path=False):
+    def run_one(self, stream, b, origin, expect=None, check_path=False, finding_if_wrong=None):
         ctx = self.ctx
         res = call_impl(self.bft, b)
         out = res['out']
@@ -248,7 +255,8 @@ class Batch:
             if not res['pos_ok']:
                 ctx.fail(mk(), f'file not positioned at / readable from the start after the call [{stream}]', stream=stream)
             if expect is not None and out != expect:
-                ctx.fail(mk(), f'valid {expect} file identified as {out!r} ({json.dumps(origin, default=repr)[:300]}) [{stream}]', stream=stream)
+                ctx.fail(mk(), f'valid {expect} file identified as {out!r} ({json.dumps(origin, default=repr)[:300]}) [{stream}]',
+                         finding=finding_if_wrong, stream=stream)
             if expect is not None and self.bft.is_lis_file_type(out) != (expect in ('LIS', 'LISt', 'LIStr')):
                 ctx.fail(mk(), f'is_lis_file_type({out!r}) wrong for a valid {expect} file [{stream}]', stream=stream)
         if check_path and not out.startswith('EXC:') and out != 'TIMEOUT':
@@ -364,6 +372,30 @@ def ebcdic_blocks(rng):
     return out
 
 
+def odd_version_las(rng):
+    """LAS texts that the LAS reader accepts (VERS is numerically 1.2 / 2.0, C09 `checkV`) but whose version value is not
+    spelled with the prefix `1.2` / `2.0`, or that give VERS a unit: class of known finding FC20d."""
+    out = []
+    for ver, vals in (('2.0', ['2', '20.e-1', '0.20e1', '02.0', '+2.0', '2.', '2e0']), ('1.2', ['12.e-1', '0.12e1', '01.2', '120.0e-2'])):
+        for v in vals:
+            for line in ('VERS. %s : CWLS' % v, 'VERS.   %s:' % v):
+                out.append((('~Version\n%s\nWRAP. NO : One line per frame\n~W\nSTRT.M 1.0:\n' % line).encode(), 'LAS' + ver))
+    out.append((b'~V\nVERS.X 2.0 : unit on the version line\nWRAP. NO:\n', 'LAS2.0'))
+    return out
+
+
+def sul_like_dat(rng):
+    """Well-formed DAT texts (accepted by DAT_parser) whose first declaration imitates a storage unit label: a channel named
+    dV1 / ddV1 / ... written with leading blanks so that bytes 4..8 read `V1?dd`: class of known finding FC20e."""
+    out = []
+    for first in ('   1V1 00RECORD 8192', '  12V1 99RECORD 00001', '0001V1 00RECORD 8192', ' 007V1\t10RECORD    1'):
+        name = first.split()[0]
+        text = (first + ' Long description words to fill sixty printable bytes of the label x\n'
+                'UTIM Unix Time sec\nDATE Date ddmmyy\nTIME Time hhmmss\nUTIM DATE TIME %s\n1165665017 09Dec06 11-50-17 5\n' % name)
+        out.append(text.encode())
+    return out
+
+
 def run(ctx):
     bft = _bft()
     rng = ctx.rng
@@ -374,6 +406,12 @@ def run(ctx):
     # ---- 0. permanent regression corpus (inputs that once made binary_file_type raise)
     for name, b in CORPUS:
         B.run_one('corpus', b, {'corpus': name}, check_path=True)
+    B.flush()
+    # ---- 0b. two input classes found while stating the recognition theorems against the C09 / C14 printers (known findings)
+    for b, expect in odd_version_las(rng):
+        B.run_one('valid:las-odd-vers', b, {'class': 'FC20d'}, expect=expect, finding_if_wrong='FC20d')
+    for b in sul_like_dat(rng):
+        B.run_one('valid:dat-sul-like', b, {'class': 'FC20e'}, expect='DAT', finding_if_wrong='FC20e')
     B.flush()
     # ---- 1. bundled example files
     for path, code in P['examples']:
